@@ -66,6 +66,16 @@ CHECKS = {
          "~67,000 histories: for five data sizes with/without resource fork and fork preservation the upload stream is cut at every byte offset (every structural boundary for 33,000 bytes), resumed from the server-reported offset, cut again (all pairs for the 8-byte file), completed and downloaded: final name absent until complete, .incomplete = delivered prefix, reported offset = its size, published file = sent bytes, existing file never overwritten.",
          "A cut delivers an in-order prefix; at most 2 (thorough 3) cuts; re-upload without resume over a partial is unspecified and not enumerated.",
          "DESIGN.md §5 C09"),
+ "C02": ("model_checking",
+         "deviation-bounded environment exploration: every placement of up to two read-boundary cuts (and fixed-size segmentations) of five scripted client sessions on the real connection and transfer loops, each compared with the unsplit run",
+         "~19,000 segmentations (thorough ~250,000) of a control session (incl. a 5,000-byte line that forces the scanner buffer to grow), a file upload, a folder upload, a file download and a folder download: every single cut, pairs of cuts in the header regions, pieces of 1..16 bytes; the normalised multiset of transactions received, the transfer bytes and the directory snapshot must equal the unsplit run's.",
+         "Sessions are fixed well-formed scripts; default thread schedule; quick tier restricts pairs of cuts to the first 96 bytes.",
+         "DESIGN.md §5 C02"),
+ "C10": ("exploration",
+         "bounded-exhaustive enumeration of directory trees x per-file action vectors with a reference folder-transfer client on the real transfer path, plus cut enumeration of folder uploads",
+         "All trees with up to 4 (thorough 5) entries over small name/size alphabets (incl. dot files, empty folders, hidden folders with visible children): download with every action vector over {send, resume@0, resume@1, resume@size, skip}; upload into three target states; upload-then-download; folder upload reset at every client byte and retried. Announced count = headers; headers = visible entries depth-first once each; size prefix and bytes per action; resulting tree = streamed tree; nothing partial under a final name.",
+         "For trees with visible entries below a hidden folder only count = headers is checked; no symlinks.",
+         "DESIGN.md §5 C10"),
 }
 NOT_YET = "check not built yet in this session (see DESIGN.md §11 build order)"
 
